@@ -484,6 +484,44 @@ func init() {
 			if o.status == "" && o.code == "" && strings.Join(o.vars, "\x00") != strings.Join(want, "\x00") {
 				c.fail(Failure{Kind: "oracle", Op: op, Impl: namesStr(o.vars), Note: fmt.Sprintf("template %q reports variables %q, tags name %q", src, o.vars, want)})
 			}
+			// automatic variables: entries that were already there (in another letter case, with and without a
+			// value) are kept and no second entry for the same name appears; on a second template the same holds
+			if o.status == "" && o.code == "" && len(want) > 0 {
+				var note string
+				safeCall(func() string {
+					t := mustache.NewMustacheTemplate()
+					pre := map[string]string{}
+					for i, w := range want {
+						switch i % 3 {
+						case 0:
+							pre[strings.ToUpper(w)+""] = "" // same name, other case, EMPTY value
+						case 1:
+							pre[strings.ToUpper(w)] = "kept"
+						}
+					}
+					t.SetDefaultVariables(pre)
+					t.SetTemplate(src)
+					t.SetTemplate(src)
+					count := map[string]int{}
+					for k := range t.DefaultVariables() {
+						count[strings.ToLower(k)]++
+					}
+					for _, w := range want {
+						if count[strings.ToLower(w)] != 1 && note == "" {
+							note = fmt.Sprintf("the default variables hold %d entries for the name %q (compared case-insensitively)", count[strings.ToLower(w)], w)
+						}
+					}
+					for k, v := range pre {
+						if got, ok := t.DefaultVariables()[k]; (!ok || got != v) && note == "" {
+							note = fmt.Sprintf("the entry %q=%q that was already in the default variables was not kept", k, v)
+						}
+					}
+					return ""
+				})
+				if note != "" {
+					c.fail(Failure{Kind: "oracle", Op: op, Impl: namesStr(o.vars), Note: note})
+				}
+			}
 		}
 	}
 }
